@@ -551,6 +551,23 @@ fn st_op(args: &[&str]) -> Resp {
                 Ok(Ok((_, msg))) => Ok(transition(state, &msg, to_server)),
             }
         }
+        // a *constructed* ClientHello (TlsClientHelloContents::new): values no parser produces, e.g. Some(&[])
+        "chnew" => {
+            nargs(rest, 2)?;
+            let sid = opt_h(rest[0])?;
+            let ext = opt_h(rest[1])?;
+            let random = [7u8; 32];
+            let ch = TlsClientHelloContents::new(
+                0x0303,
+                &random,
+                sid.as_deref(),
+                vec![TlsCipherSuiteID(0x2f)],
+                vec![TlsCompressionID(0)],
+                ext.as_deref(),
+            );
+            let msg = TlsMessage::Handshake(TlsMessageHandshake::ClientHello(ch));
+            Ok(transition(state, &msg, to_server))
+        }
         "ccs" => {
             nargs(rest, 0)?;
             Ok(transition(state, &TlsMessage::ChangeCipherSpec, to_server))
